@@ -252,13 +252,24 @@ func timeGrid(r *core.Run) {
 			time.Date(1, 1, 1, 1, 0, 0, 0, time.FixedZone("", 3600)), time.Date(9999, 12, 31, 23, 59, 59, 0, time.UTC), time.Unix(1<<40, 0)} {
 			// the other optional attributes of a SignerInfo must not matter: an
 			// expiry before / at / after the signing time, or none
-			for _, exp := range []time.Time{{}, t.Add(-time.Hour), t, t.Add(time.Hour), time.Unix(0, 0)} {
+			for ei, exp := range []time.Time{{}, t.Add(-time.Hour), t, t.Add(time.Hour), time.Unix(0, 0)} {
 				r.Eval(1)
 				si := &signature.SignerInfo{SignedAttributes: signature.SignedAttributes{SigningScheme: scheme, SigningTime: t, Expiry: exp,
 					ExtendedAttributes: []signature.Attribute{{Key: "k", Critical: true, Value: 1}}}, UnsignedAttributes: signature.UnsignedAttributes{SigningAgent: "a"}}
+				// ... nor does an (unsigned, unverified) timestamp countersignature
+				// attribute: present as some bytes, as an empty slice, or absent
+				tsDesc := "no timestamp attribute"
+				switch ei % 3 {
+				case 1:
+					si.UnsignedAttributes.TimestampSignature = []byte{0x30, 0x03, 0x02, 0x01, 0x01}
+					tsDesc = "some timestamp attribute bytes"
+				case 2:
+					si.UnsignedAttributes.TimestampSignature = []byte{}
+					tsDesc = "empty timestamp attribute"
+				}
 				got, err := si.AuthenticSigningTime()
 				want := scheme == signature.SigningSchemeX509SigningAuthority && !t.IsZero()
-				desc := fmt.Sprintf("AuthenticSigningTime(scheme %q, time %v, expiry %v)", scheme, t, exp)
+				desc := fmt.Sprintf("AuthenticSigningTime(scheme %q, time %v, expiry %v, %s)", scheme, t, exp, tsDesc)
 				switch {
 				case want && (err != nil || !got.Equal(t)):
 					r.Violation("authentic-time-unavailable", desc+fmt.Sprintf(" = %v, %v", got, err), desc)
